@@ -527,3 +527,56 @@ def show(t, depth=0, maxdepth=7):
     if h == "init":
         return "*arg%d@entry" % t[1][1]
     return "%s" % (t,)
+
+
+# ---------------------------------------------------------------------- inlining of helper calls at the term level
+def subst(t, args):
+    """Instantiate the return term of a callee with the argument terms of one call (params and the memory behind
+    pointer params). Block numbers inside the result refer to the callee's body."""
+    if not isinstance(t, tuple) or not t:
+        return t
+    h = t[0]
+    if not isinstance(h, str):
+        return tuple(subst(x, args) for x in t)
+    if h == "param":
+        return args[t[1] - 1] if 1 <= t[1] <= len(args) else ("unknown", "param")
+    if h == "init" and isinstance(t[1], tuple) and t[1] and t[1][0] == "deref":
+        return deref(args[t[1][1] - 1]) if 1 <= t[1][1] <= len(args) else ("unknown", "init")
+    if h == "deref":
+        return deref(subst(t[1], args))
+    if h == "field":
+        return field(subst(t[1], args), t[2])
+    if h == "phi":
+        return _phi(tuple(subst(x, args) for x in t[1]))
+    if h == "const":
+        return t
+    out = [h]
+    for x in t[1:]:
+        if isinstance(x, tuple):
+            out.append(subst(x, args))
+        else:
+            out.append(x)
+    return tuple(out)
+
+
+def expand_call(repo, t, allow):
+    """`t` is a ('call', fn, args, bb) to a crate-local function accepted by `allow(body)` that hands out no `&mut`:
+    the callee's return term with the arguments substituted; None when it is not such a call."""
+    if t[0] != "call":
+        return None
+    cb = repo.F.bodies.get(t[1].d)
+    if cb is None or not allow(cb):
+        return None
+    if any(str(ty).startswith("&mut") for ty in (cb.rec.get("inputs") or [])):
+        return None
+    if cb.rec.get("requires_mono") and False:
+        return None
+    rv = repo.tb(cb).return_value()
+    if any(x[0] in ("cycle", "unknown") for x in walk(rv)):
+        return None
+    return subst(rv, list(t[2]))
+
+
+def same_file(repo, body):
+    f = (body.rec.get("span") or {}).get("file")
+    return lambda cb: f is not None and (cb.rec.get("span") or {}).get("file") == f and cb.rec["path"] != body.rec["path"]
